@@ -3,6 +3,7 @@ MD2-MD5, MD7, MD9, LS1-LS3, SK1, CP1, CP2, LK1, LK2, HV1, HV2."""
 from .framework import rule
 from .ev import all_guards, guarded, g_call, g_cmp, g_try_ok, try_inner, decode_edge
 from .mir import tstr, callee_of, path_matches, is_log_call, strip_refs, subterms, tmatch, find_sub, strip_generics
+from .dataflow import var_def_terms
 from .fsmodel import (
     VM, VMD, all_effects, medium_effects, state_effects, err_returns, ok_returns, public_vm_fns,
     is_result_of_error, call_matches, table_of_term, TABLES,
@@ -125,38 +126,40 @@ def md4(F, R):
         R.require(ok3, fn, "found", "delete reachable without a successful lookup", fn.loc(b))
 
 
-@rule("MD5", ["C07", "C06"], floor=2,
+@rule("MD5", ["C07", "C06"], floor=4,
       doc="open_dir: a directory handle is pushed either on the '.' shortcut (name == this_dir()) or under is_directory() of the entry just looked up")
 def md5(F, R):
     fn = F.fn(VM + "::open_dir")
     found = lambda t: has_sub(t, lambda s: s[0] == "call" and s[1] and path_matches(s[1], "FatVolume::find_directory_entry"))
     pushes = [(b, t) for b, t in fn.calls() if call_matches(t, ("Vec::push", "Vec::push_unchecked")) and table_of_term(fn.term_of_operand(t["args"][0], b)) == "open_dirs"]
-    if len(pushes) < 2:
-        R.bad(fn, "pushes", "expected 2 open_dirs pushes, found %d" % len(pushes), kind="anchor-missing")
+    if len(pushes) < 1:
+        R.bad(fn, "pushes", "expected an open_dirs push in open_dir, found none", kind="anchor-missing")
     g_short = g_cmp("Eq", True, None, lambda b: has_sub(b, lambda s: s[0] == "call" and s[1] and path_matches(s[1], "ShortFileName::this_dir")))
-    g_short2 = g_cmp("Eq", True, lambda a: has_sub(a, lambda s: s[0] == "call" and s[1] and path_matches(s[1], "ShortFileName::this_dir")), None)
+    g_isdir = g_call("Attributes::is_directory", True, lambda a: found(a[0]))
+    flds = [f["name"] for f in F.adts["filesystem::directory::DirectoryInfo"]["variants"][0]["fields"]]
+    kinds = set()
     for b, t in pushes:
-        short = guarded(fn, b, g_short)[0] or guarded(fn, b, g_short2)[0]
-        if short:
-            # the shortcut must re-use the parent's cluster
-            info = fn.term_of_operand(t["args"][1], b)
-            cl = None
-            if info[0] == "agg" and info[2] and info[2].endswith("DirectoryInfo"):
-                flds = F.adts["filesystem::directory::DirectoryInfo"]["variants"][0]["fields"]
-                idx = [f["name"] for f in flds].index("cluster")
-                cl = info[3][idx]
-            ok = cl is not None and last_field(cl) == "cluster" and table_of_term(cl) == "open_dirs"
-            R.require(ok, fn, "shortcut-cluster", "'.' shortcut must open the parent handle's own cluster, got %s" % (tstr(cl) if cl else None), fn.loc(b))
-        else:
-            ok, _ = guarded(fn, b, g_call("Attributes::is_directory", True, lambda a: found(a[0])))
-            R.require(ok, fn, "is-directory", "directory handle pushed without `is_directory()` on the looked-up entry", fn.loc(b))
-            info = fn.term_of_operand(t["args"][1], b)
-            if info[0] == "agg" and info[2] and info[2].endswith("DirectoryInfo"):
-                flds = F.adts["filesystem::directory::DirectoryInfo"]["variants"][0]["fields"]
-                idx = [f["name"] for f in flds].index("cluster")
-                cl = info[3][idx]
-                ok = last_field(cl) == "cluster" and found(cl)
-                R.require(ok, fn, "entry-cluster", "opened directory's cluster must be the looked-up entry's cluster, got %s" % tstr(cl), fn.loc(b))
+        info = strip_refs(fn.term_of_operand(t["args"][1], b))
+        if not (info[0] == "agg" and info[2] and info[2].endswith("DirectoryInfo")):
+            R.bad(fn, "pushed-info", "open_dir pushes something that is not a DirectoryInfo literal: %s" % tstr(info)[:80], fn.loc(b))
+            continue
+        cl = strip_refs(info[3][flds.index("cluster")])
+        # where the opened cluster comes from: the push itself, or the arms that define a local
+        sites = [(b, cl)]
+        if cl[0] == "var":
+            sites = [(d[1], strip_refs(fn.term_of_rvalue(d[3], d[1]) if d[0] == "assign" else fn.call_term(d[2], d[1]))) for d in fn.defs().get(cl[1], []) if d[0] in ("assign", "call")]
+        for (sb, sv) in sites:
+            if last_field(sv) == "cluster" and table_of_term(sv) == "open_dirs" and not found(sv):
+                kinds.add("shortcut")
+                # the parent handle's own cluster: only for the name "."
+                R.require(guarded(fn, sb, g_short)[0], fn, "shortcut-cluster", "the parent handle's own cluster is opened for a name other than '.'", fn.loc(sb))
+            elif last_field(sv) == "cluster" and found(sv):
+                kinds.add("entry")
+                R.require(guarded(fn, sb, g_isdir)[0], fn, "is-directory", "directory handle pushed without `is_directory()` on the looked-up entry", fn.loc(sb))
+                R.ok(fn, "entry-cluster", "opened cluster is the looked-up entry's cluster", fn.loc(sb))
+            else:
+                R.bad(fn, "entry-cluster", "opened directory's cluster must be the looked-up entry's cluster (or the parent's own for '.'), got %s" % tstr(sv), fn.loc(sb))
+    R.require(kinds == {"shortcut", "entry"}, fn, "both-ways", "open_dir must open '.' as the parent's own cluster and any other name through the looked-up entry (found: %s)" % sorted(kinds), fn.loc(0))
 
 
     # "opening a sub-directory succeeds exactly for names that the listing contains": once the entry is found and is a
@@ -344,19 +347,40 @@ def ls1(F, R):
                 R.require(not hit, fn, "end-stops", "a callback is reachable after the end-of-directory marker", fn.loc(b))
 
 
-@rule("LS2", ["C06"], floor=1,
+@rule("LS2", ["C06"], floor=5,
       doc="VolumeManager::iterate_dir: the user's callback runs only under !attributes.is_lfn()")
 def ls2(F, R):
-    fn = F.fn(VM + "::iterate_dir")
+    def closure_of_arg(f, t, b, k):
+        a = strip_refs(f.term_of_operand(t["args"][k], b))
+        if a[0] == "agg" and a[1] == "Closure":
+            try:
+                return F.closure(a[2])
+            except KeyError:
+                return None
+        return None
+
+    def filters(c):
+        """every invocation of the wrapped callback inside closure c lies behind !is_lfn()"""
+        calls = [b for b, t in c.calls() if (callee_of(t) or "").endswith(("FnMut::call_mut", "Fn::call", "FnOnce::call_once"))]
+        return bool(calls) and all(guarded(c, b, lambda g: g_call("Attributes::is_lfn", False)(g) or g_call("OnDiskDirEntry::is_lfn", False)(g))[0] for b in calls)
+    vm = F.fn(VM + "::iterate_dir")
+    top = [(b, t) for b, t in vm.calls() if call_matches(t, ("FatVolume::iterate_dir",))]
+    R.require(len(top) == 1, vm, "route", "VolumeManager::iterate_dir must list through FatVolume::iterate_dir", vm.loc(0))
+    if len(top) != 1:
+        return
+    c0 = closure_of_arg(vm, top[0][1], top[0][0], len(top[0][1]["args"]) - 1)
+    top_filter = c0 is not None and filters(c0)
+    fv = F.fn("FatVolume::iterate_dir")
     n = 0
-    for c in F.closures_of(fn):
-        for b, t in c.calls():
-            if callee_of(t) and callee_of(t).endswith("FnMut::call_mut"):
-                n += 1
-                ok, _ = guarded(c, b, g_call("Attributes::is_lfn", False))
-                R.require(ok, c, "not-lfn", "user callback reachable for long-name fragments", c.loc(b))
+    for arm, walker in (("FAT16", "FatVolume::iterate_fat16"), ("FAT32", "FatVolume::iterate_fat32")):
+        sites = [(b, t) for b, t in fv.calls() if call_matches(t, (walker,))]
+        R.require(len(sites) == 1, fv, "route:" + arm, "FatVolume::iterate_dir must walk %s directories with %s" % (arm, walker.split("::")[-1]), fv.loc(0))
+        for b, t in sites:
+            n += 1
+            c1 = closure_of_arg(fv, t, b, len(t["args"]) - 1)
+            R.require(top_filter or (c1 is not None and filters(c1)), fv, "not-lfn:" + arm, "on %s the plain listing hands long-name fragments to the user's callback: no layer between the slot walk and the callback tests !is_lfn()" % arm, fv.loc(b))
     if n == 0:
-        R.bad(fn, "anchor", "no user callback call found in iterate_dir closures", kind="anchor-missing")
+        R.bad(vm, "anchor", "no directory walk found behind iterate_dir", kind="anchor-missing")
 
 
 @rule("LS3", ["C06"], floor=4,
@@ -373,7 +397,7 @@ def ls3(F, R):
     fn = F.fn("FatVolume::delete_entry_in_block")
     stores = [(b, i, s) for b, i, s in fn.stmts() if s["k"] == "Assign" and s["p"]["proj"] and fn.term_of_rvalue(s["rv"], b)[:2] == ("c", 0xE5)]
     if not stores:
-        R.bad(fn, "anchor", "no 0xE5 store", kind="anchor-missing")
+        R.bad(fn, "tombstone", "delete_entry_in_block does not store the 0xE5 tombstone into the matched slot's first byte (a different marker changes where the listing ends)")
     for b, i, s in stores:
         ok1, _ = guarded(fn, b, g_call("OnDiskDirEntry::matches", True))
         ok2, _ = guarded(fn, b, g_call("OnDiskDirEntry::is_end", False))
@@ -402,9 +426,20 @@ def ls3(F, R):
         if c and (c.endswith("PartialEq::eq") or c.endswith("::eq")):
             t = fn.call_term(tt, b)
     ok = False
-    if t is not None:
-        s = tstr(t)
-        ok = ("0..0xb" in s.replace(" ", "") or "Range{0, 0xb}" in s or "Range{0,0xb}" in s.replace(" ", "")) and "contents" in s and "data" in s
+    if t is not None and len(t[2]) == 2:
+        def is_name_bytes(x):
+            """self.data[0..11] / self.data[..11]"""
+            x = strip_refs(x)
+            if not (x[0] == "call" and x[1] and x[1].endswith(("Index::index", "::index")) and len(x[2]) == 2):
+                return False
+            base, r = strip_refs(x[2][0]), strip_refs(x[2][1])
+            whole = has_sub(base, lambda q: q[0] == "place" and [e for e in q[2] if isinstance(e, str) and e != "*"][-1:] == ["data"] and strip_refs(q[1])[:2] == ("arg", 1))
+            rng = (r[0] == "agg" and r[2] and r[2].endswith(("ops::Range", "ops::Range::Range")) and r[3][0][:2] == ("c", 0) and r[3][1][:2] == ("c", 11)) or \
+                  (r[0] == "agg" and r[2] and r[2].endswith(("ops::RangeTo", "RangeTo::RangeTo")) and r[3][0][:2] == ("c", 11))
+            return whole and rng
+        is_contents = lambda x: (lambda y: y[0] == "place" and last_field(y) == "contents" and strip_refs(y[1])[:2] == ("arg", 2))(strip_refs(x))
+        a_, b_ = t[2]
+        ok = (is_name_bytes(a_) and is_contents(b_)) or (is_name_bytes(b_) and is_contents(a_))
     R.require(ok, fn, "matches-range", "matches() must compare data[0..11] with sfn.contents; got %s" % (tstr(t) if t else None), fn.loc(0))
     # ... and nothing else: the answer is that comparison (no attribute or other side condition decides whether a name matches)
     rets = [fn.term_of_rvalue(d[3], d[1]) if d[0] == "assign" else fn.call_term(d[2], d[1]) for d in fn.defs().get(0, [])]
@@ -775,10 +810,11 @@ def hv1(F, R):
                 R.ok(fn, pname, "handle `%s` validated before %d effects/Ok returns" % (pname, len(targets)))
 
 
-@rule("HV2", ["C08"], floor=7,
+@rule("HV2", ["C08"], floor=9,
       doc="raw handles are constructed only from id_generator.generate(); generate() returns the old counter and advances it by one")
 def hv2(F, R):
     n = 0
+    seen_types = set()
     for fn in F.fns:
         for b, i, s in fn.stmts():
             if s["k"] != "Assign" or s["rv"]["k"] != "Aggregate" or s["rv"].get("agg") != "Adt":
@@ -786,9 +822,50 @@ def hv2(F, R):
             adt = s["rv"]["adt"]
             if adt.split("::")[-1] in ("RawVolume", "RawDirectory", "RawFile"):
                 n += 1
+                seen_types.add(adt.split("::")[-1])
                 v = fn.term_of_operand(s["rv"]["ops"][0], b)
                 ok = v[0] == "call" and v[1] and path_matches(v[1], "HandleGenerator::generate")
                 R.require(ok, fn, "ctor:" + adt.split("::")[-1], "%s constructed from %s, not from generate()" % (adt, tstr(v)), fn.loc(b, i))
+    # every record that enters an open-object table carries a handle minted for it: the pushed value is a literal whose own
+    # handle field is Raw*(id_generator.generate()) - never a copy of a record that is already in a table
+    OWN = {"DirectoryInfo": "raw_directory", "FileInfo": "raw_file", "VolumeInfo": "raw_volume"}
+    npush = 0
+    for fn in F.fns:
+        if not fn.npath.startswith("volume_mgr::VolumeManager"):
+            continue
+        for b, t in fn.calls():
+            if not call_matches(t, ("Vec::push", "Vec::push_unchecked")):
+                continue
+            tab = table_of_term(fn.term_of_operand(t["args"][0], b))
+            if tab not in ("open_dirs", "open_files", "open_volumes"):
+                continue
+            npush += 1
+            v = strip_refs(fn.term_of_operand(t["args"][1], b))
+            def resolve(x, depth=0):
+                """the literals a local can hold (through moves between locals)"""
+                x = strip_refs(x)
+                if x[0] == "var" and depth < 5:
+                    out = []
+                    for d in var_def_terms(fn, x[1]):
+                        out += resolve(d, depth + 1)
+                    return out
+                return [x]
+            alts = resolve(v)
+            okp = bool(alts)
+            for a in alts:
+                kind = a[2].split("::")[-1] if a[0] == "agg" and a[2] else None
+                if kind not in OWN:
+                    okp = False
+                    continue
+                flds = [f["name"] for f in next(ad for pth, ad in F.adts.items() if pth == kind or pth.endswith("::" + kind))["variants"][0]["fields"]]
+                h = strip_refs(a[3][flds.index(OWN[kind])])
+                hs = resolve(h)
+                for h_ in hs:
+                    if not (h_[0] == "agg" and h_[2] and h_[2].split("::")[-1].startswith("Raw") and has_sub(h_, lambda q: q[0] == "call" and q[1] and path_matches(q[1], "HandleGenerator::generate"))):
+                        okp = False
+            R.require(okp, fn, "fresh-handle:" + tab, "a record is pushed into %s whose handle is not freshly generated (a copied record leaves two table entries answering to one handle; closing one orphans the other)" % tab, fn.loc(b))
+    R.require(npush >= 3, None, "push-sites", "expected pushes into all three open-object tables, found %d" % npush)
+    R.require(seen_types == {"RawVolume", "RawDirectory", "RawFile"}, None, "ctor-sites", "expected constructor sites for all three raw handle types, found %s" % sorted(seen_types))
     fn = F.fn("HandleGenerator::generate")
     # _0 = Handle(id.0) where id = copy of self.next_id taken before the += 1
     rets = [fn.term_of_rvalue(s["rv"], b) for b, i, s in fn.stmts() if s["k"] == "Assign" and s["p"]["l"] == 0 and not s["p"]["proj"]]
@@ -796,3 +873,17 @@ def hv2(F, R):
     adds = [t for b, t in fn.calls() if (callee_of(t) or "").endswith("AddAssign::add_assign")]
     ok2 = len(adds) == 1 and fn.term_of_operand(adds[0]["args"][1], 0)[:2] == ("c", 1)
     R.require(ok and ok2, fn, "generate", "generate() must return the counter and add 1", fn.loc(0))
+    # the counter only ever moves forward: nothing but new() sets it and nothing but generate() changes it (a reset re-issues
+    # handle values that callers may still hold from before - they would be accepted again and name other objects)
+    writers = set()
+    for g in F.fns:
+        for b, i, s_ in g.stmts():
+            if s_["k"] == "Assign":
+                if [e[2] for e in g.canon_place(s_["p"])["proj"] if e[0] == "field"][-1:] == ["next_id"] or (s_["rv"]["k"] == "Aggregate" and s_["rv"].get("adt", "").endswith("HandleGenerator")):
+                    writers.add(g.npath)
+        for b, t in g.calls():
+            if t["args"] and (callee_of(t) or "").endswith(("AddAssign::add_assign", "SubAssign::sub_assign", "mem::replace", "mem::swap", "mem::take")) and "next_id" in tstr(g.term_of_operand(t["args"][0], b)):
+                writers.add(g.npath)
+    allowed = {"filesystem::handles::HandleGenerator::new", "filesystem::handles::HandleGenerator::generate"}
+    extra = {w for w in writers if w not in allowed and not w.endswith("as core::clone::Clone>::clone")}
+    R.require(not extra and "filesystem::handles::HandleGenerator::generate" in writers, None, "counter-writers", "the handle counter is written outside HandleGenerator::new / generate: %s" % sorted(extra), okdetail="handle counter written only by %s" % sorted(writers))
